@@ -354,8 +354,8 @@ Proof.
     exists [OEv (EvWConn (c_wcounter (s_core s) + 1)); ONewWorker (c_wcounter (s_core s) + 1)]. split; [reflexivity|].
     constructor; [apply Q_plain; exact I|]. constructor; [apply Q_plain; exact I | constructor].
   - destruct (find_proc _ w); [|discriminate]. apply (EX_nil s' outs s). eapply on_remove_worker_EX; eassumption.
-  - apply (EX_nil s' outs s). eapply handle_submit_array_EX; exact H.
-  - destruct (bad_graph_rq _ _); [inversion H; subst; constructor; [apply Q_plain; exact I | constructor]|].
+  - destruct (bad_submit_lengths _ _); [inversion H; subst; constructor; [apply Q_plain; exact I | constructor]|]. apply (EX_nil s' outs s). eapply handle_submit_array_EX; exact H.
+  - destruct (bad_graph_rq _ _); [inversion H; subst; constructor; [apply Q_plain; exact I | constructor]|]. destruct (dead_dep _ _ _); [inversion H; subst; constructor; [apply Q_plain; exact I | constructor]|].
     apply (EX_nil s' outs s). eapply handle_submit_graph_EX; exact H.
   - unfold handle_open in H. inversion H; subst. constructor; [apply Q_plain; exact I|]. constructor; [apply Q_plain; exact I | constructor].
   - apply (EX_nil s' outs s). unfold handle_close in H.
